@@ -544,3 +544,127 @@ Proof.
     + unfold fail, step0. cbv beta iota. exists s2'. split; [reflexivity|exact R'].
   - destruct H as (s2' & E2 & R'). rewrite E2. exists s2'. split; [reflexivity|exact R'].
 Qed.
+
+(* ------------------------------------------------------------------ payload writes *)
+Lemma srel_store W s1 s2 x1 x2 : srel W s1 s2 -> store_rel W x1 x2 ->
+  srel W (with_store s1 x1) (with_store s2 x2).
+Proof.
+  intros R S. destruct R as [R1 R2 R3 R4 R5 R6 R7 R8 R9 R10 R11 R12 R13 R14 R15 R16 R17 R18 R19 R20].
+  constructor; sr_simpl; assumption.
+Qed.
+Lemma list_set_nat_map {A B} (f : A -> B) l : forall i a, list_set_nat (map f l) i (f a) = map f (list_set_nat l i a).
+Proof. induction l as [|x r IH]; intros i a; [reflexivity|]. destruct i; cbn [map list_set_nat]; [reflexivity|]. now rewrite IH. Qed.
+Lemma list_set_nat_Forall {A} (P : A -> Prop) l : forall i a, Forall P l -> P a -> Forall P (list_set_nat l i a).
+Proof.
+  induction l as [|x r IH]; intros i a H Ha; [exact H|]. inversion H; subst.
+  destruct i; cbn [list_set_nat]; constructor; auto.
+Qed.
+Lemma lr_set W l1 l2 i v1 v2 : lr W l1 l2 -> vr W v1 v2 -> lr W (list_set l1 i v1) (list_set l2 i v2).
+Proof.
+  intros [-> L] [-> Lv]. unfold list_set. split; [apply list_set_nat_map|apply list_set_nat_Forall; assumption].
+Qed.
+Lemma lr_len W l1 l2 : lr W l1 l2 -> len l2 = len l1.
+Proof. intros [-> _]. unfold len. now rewrite map_length. Qed.
+
+Lemma sim_env_put W e1 e2 i v1 v2 : idr PEnv W e1 e2 -> vr W v1 v2 ->
+  sim W (@anyr unit unit) (env_put e1 i v1) (env_put e2 i v2).
+Proof.
+  intros He Hv. pose proof He as [-> Hi]. unfold env_put.
+  eapply sim_bind; [apply sim_env_slots, He| |].
+  - intros l. destruct (i <? len l); [|apply hm_panic]. apply hm_same. intros s. reflexivity.
+  - intros W' l1 l2 E Hl. rewrite (lr_len _ _ _ Hl). destruct (i <? len l1); [|apply sim_panic].
+    intros s1 s2 R. intros B. eexists tt, _, W'. split; [reflexivity|]. split; [apply ext_refl|]. split; [|exact I].
+    apply srel_store; [exact R|]. destruct (sr_store _ _ _ R) as [A1 A2 A3 A4 A5 A6 A7].
+    constructor; cbn [set_env strs macros next_id envs vecs conts lams]; try assumption.
+    intros j Hj. destruct (N.eq_dec e1 j) as [<-|Hne].
+    + rewrite !tget_tset_same. cbn [orel]. apply lr_set; [exact Hl|eapply vr_ext; [apply E|exact Hv]].
+    + rewrite !tget_tset_other by exact Hne. apply A4, Hj.
+Qed.
+Lemma hm_env_put e i v : hmono (env_put e i v).
+Proof.
+  unfold env_put. apply hm_bind; [apply hm_env_slots|]. intros l.
+  destruct (i <? len l); [|apply hm_panic]. apply hm_same. intros s. reflexivity.
+Qed.
+
+(* lexical access, run.rs:394-401 / 424-437 *)
+Lemma sim_load_lex_slot W k : sim W vr (load_lex_slot k) (load_lex_slot k).
+Proof.
+  unfold load_lex_slot.
+  eapply sim_bind; [apply sim_get_vm| |].
+  { intros s. repeat (apply hm_bind; [first [apply hm_hget|apply hm_as_lexenv|apply hm_env_get]|intros ?]).
+    destruct a1; try apply hm_ret.
+    repeat (apply hm_bind; [first [apply hm_hget|apply hm_as_lexenv|apply hm_env_get]|intros ?]). apply hm_env_get. }
+  intros W1 s1 s2 E1 Hs.
+  eapply sim_bind; [apply sim_hget, (sn_ep _ _ _ Hs)| |].
+  { intros ?. repeat (apply hm_bind; [first [apply hm_hget|apply hm_as_lexenv|apply hm_env_get]|intros ?]).
+    destruct a1; try apply hm_ret.
+    repeat (apply hm_bind; [first [apply hm_hget|apply hm_as_lexenv|apply hm_env_get]|intros ?]). apply hm_env_get. }
+  intros W2 ev1 ev2 E2 Hev.
+  eapply sim_bind; [apply sim_as_lexenv, Hev| |].
+  { intros ?. repeat (apply hm_bind; [first [apply hm_hget|apply hm_as_lexenv|apply hm_env_get]|intros ?]).
+    destruct a0; try apply hm_ret.
+    repeat (apply hm_bind; [first [apply hm_hget|apply hm_as_lexenv|apply hm_env_get]|intros ?]). apply hm_env_get. }
+  intros W3 e1 e2 E3 He.
+  eapply sim_bind; [apply sim_env_get, He| |].
+  { intros v. destruct v; try apply hm_ret.
+    repeat (apply hm_bind; [first [apply hm_hget|apply hm_as_lexenv|apply hm_env_get]|intros ?]). apply hm_env_get. }
+  intros W4 v1 v2 E4 Hv. pose proof Hv as [-> Lv].
+  destruct v1; cbn [vmap]; try (apply sim_ret; exact Hv).
+  eapply sim_bind; [apply sim_hget; split; [reflexivity|apply (vlive_addr _ _ _ Lv); now left]| |].
+  { intros ?. apply hm_bind; [apply hm_as_lexenv|intros ?; apply hm_env_get]. }
+  intros W5 x1 x2 E5 Hx.
+  eapply sim_bind; [apply sim_as_lexenv, Hx|intros ?; apply hm_env_get|].
+  intros W6 y1 y2 E6 Hy. apply sim_env_get, Hy.
+Qed.
+
+(* ------------------------------------------------------------------ hmono automation *)
+Create HintDb hm.
+#[export] Hint Resolve hm_ret hm_fail hm_fail_msg hm_panic hm_get_vm hm_push hm_pop_raw hm_stack_get hm_stack_put
+  hm_stack_get_offset hm_stack_put_offset hm_set_acc hm_set_ip hm_set_ep hm_set_bp hm_set_sp hm_hget
+  hm_hderef hm_as_ptr hm_as_argc hm_as_bp hm_as_ep hm_as_ip hm_as_lexenv hm_usub hm_get_lambda
+  hm_as_lambda hm_cur_lambda hm_env_slots hm_env_new hm_vec_get hm_vec_set hm_env_get hm_env_put : hm.
+Ltac hm :=
+  repeat first [ solve [auto with hm]
+               | apply hm_bind; [|intros ?]
+               | match goal with |- hmono (match ?x with _ => _ end) => destruct x end ].
+
+Lemma hm_load_lex_slot k : hmono (load_lex_slot k).
+Proof. unfold load_lex_slot. hm. Qed.
+Lemma hm_store_lex_slot k v : hmono (store_lex_slot k v).
+Proof. unfold store_lex_slot. hm. Qed.
+Lemma hm_read_opcode : hmono read_opcode.
+Proof. unfold read_opcode. hm. Qed.
+Lemma hm_read_operand : hmono read_operand.
+Proof. unfold read_operand. hm. Qed.
+#[export] Hint Resolve hm_load_lex_slot hm_store_lex_slot hm_read_opcode hm_read_operand : hm.
+Lemma hm_hset p v : hmono (hset p v).
+Proof.
+  intros s. unfold hset, heap_set. destruct (p <? hlen (hp s)); cbn [hp with_heap hlen]; [lia|exact I].
+Qed.
+Lemma hm_load_operand : hmono load_operand.
+Proof. unfold load_operand. hm. Qed.
+Lemma hm_store_operand v : hmono (store_operand v).
+Proof.
+  unfold store_operand. hm; try apply hm_hset.
+Qed.
+#[export] Hint Resolve hm_hset hm_load_operand hm_store_operand : hm.
+
+Lemma sim_store_lex_slot W k v1 v2 : vr W v1 v2 ->
+  sim W (@anyr unit unit) (store_lex_slot k v1) (store_lex_slot k v2).
+Proof.
+  intros Hv. unfold store_lex_slot.
+  eapply sim_bind; [apply sim_get_vm|intros; hm|]. intros W1 s1 s2 E1 Hs.
+  eapply sim_bind; [apply sim_hget, (sn_ep _ _ _ Hs)|intros; hm|]. intros W2 ev1 ev2 E2 Hev.
+  eapply sim_bind; [apply sim_as_lexenv, Hev|intros; hm|]. intros W3 e1 e2 E3 He.
+  eapply sim_bind; [apply sim_env_get, He|intros; hm|]. intros W4 c1 c2 E4 Hc.
+  assert (Hv4 : vr W4 v1 v2).
+  { eapply vr_ext; [|exact Hv]. apply (ext_trans _ _ _ E1 (ext_trans _ _ _ E2 (ext_trans _ _ _ E3 E4))). }
+  assert (He4 : idr PEnv W4 e1 e2) by (destruct He as [-> Hi]; split; [reflexivity|apply (ex_i _ _ (proj1 E4)), Hi]).
+  pose proof Hc as [-> Lc].
+  destruct c1; cbn [vmap]; try (apply sim_env_put; assumption).
+  eapply sim_bind; [apply sim_hget; split; [reflexivity|apply (vlive_addr _ _ _ Lc); now left]|intros; hm|].
+  intros W5 x1 x2 E5 Hx.
+  eapply sim_bind; [apply sim_as_lexenv, Hx|intros; hm|].
+  intros W6 y1 y2 E6 Hy. apply sim_env_put; [exact Hy|].
+  eapply vr_ext; [|exact Hv4]. apply (ext_trans _ _ _ E5 E6).
+Qed.
